@@ -43,7 +43,7 @@ ItemGenOk(e, it) ==
        /\ it.p >= 1 /\ it.n >= 1 /\ it.p + it.n - 1 <= Lines(it.ax)
   ELSE /\ InGridRC(it.c, it.r) /\ it.p > it.r /\ it.p <= MaxRow
        /\ it.p > FExtent(e.toks, e.own, e.own, "row")           \* the insert concerns no reference
-GenOk(e) == /\ InClass(e.toks)
+GenOk(e) == /\ InClassFor(e.toks, Enabled)
             /\ e.f = Render(e.toks)
             /\ \A j \in DOMAIN e.items : ItemGenOk(e, e.items[j])
 
